@@ -21,7 +21,8 @@ func init() {
 		}
 	}
 	for _, a := range []string{"#", "-", "number", "@"} {
-		for _, b := range []string{"ident", "function", "url"} {
+		// ("-->" starts like the identifier "--")
+		for _, b := range []string{"ident", "function", "url", "-->"} {
 			badPairs[[2]string{a, b}] = true
 		}
 	}
